@@ -122,7 +122,7 @@ def run(ctx) -> None:
                 if n == 3 or comp == "superadditive_cached" or not quick or i == 0:
                     euler_case(ctx, n, fam, values, exact, comp, shuffled=bool(i))
     # 2. random (game, K, history, computer)
-    ns = [2, 3, 4, 4, 5, 5, 5, 6, 6] + ([7] if not quick else [])
+    ns = [2, 3, 4, 4, 5, 5, 5, 6, 6, 7]
     for n, fam, values, exact in boundcore.pick_cases(ctx, ns, gen.SA_FAMILIES):
         if ctx.out_of_time(1.0):
             break
